@@ -265,6 +265,28 @@ def clock_scenarios(R, lib, ob, init_vals, inv, g, sy, sn):
                 break
         if bad:
             break
+    # ... also when the clock was read in between (it has advanced past the value it was last set to) and is then set
+    # again - to the same value as before, to an earlier one, to a later one
+    if bad is None:
+        for run_ms in (1000, 5000, 61000):
+            for second in (T, T - 3, T + run_ms // 1000, T + 100):
+                clk = fresh()
+                state['m'] = 500
+                call(sy, clk, T)
+                state['m'] = 500 + run_ms
+                call(g, clk)
+                call(sy, clk, second)
+                for later in (0, 1500):
+                    state['m'] = 500 + run_ms + later
+                    v = call(g, clk)
+                    if v != second + later // 1000:
+                        bad = ('set to %d, read %d ms later, set to %d, read %d ms after that: %r, expected %d (a set always takes effect, whatever was '
+                               'set last)' % (T, run_ms, second, later, v, second + later // 1000))
+                        break
+                if bad:
+                    break
+            if bad:
+                break
     ob('R4', sy.name + ':accepted', sy.loc, bad is None, bad or '')
     # last-sync time and backup clock
     bk = AObj({}, oid='backup', cls='ace_time::clock::Clock')
